@@ -142,17 +142,41 @@ Proof.
             end); reflexivity.
 Qed.
 
-Lemma declare_finish_ext p a b f n v pl : aeq a b -> declare_finish p a f n v pl = declare_finish p b f n v pl.
+Lemma other_occurrences_ext a b s0 n t f : aeq a b -> other_occurrences a s0 n t f = other_occurrences b s0 n t f.
 Proof.
-  intro H. unfold declare_finish.
+  intro H. unfold other_occurrences. rewrite (proj1 H). apply filter_ext. intro r.
+  rewrite (find_tagged_ext a b H). reflexivity.
+Qed.
+
+Lemma declare_finish_old_ext p a b f n v pl : aeq a b ->
+  declare_finish_old p a f n v pl = declare_finish_old p b f n v pl.
+Proof.
+  intro H. unfold declare_finish_old.
   destruct (dp_tag pl) as [x|]; [|reflexivity].
-  set (acts1 := if dp_write pl then _ else _).
+  set (acts1 := declare_acts1 f n v pl).
   assert (H1 : aeq (aapply_all acts1 a) (aapply_all acts1 b)) by (apply aapply_all_aeq; exact H).
   rewrite (occurrences_ext p _ _ n x f H1).
   set (acts2 := map _ _).
   assert (H2 : aeq (aapply_all acts2 (aapply_all acts1 a)) (aapply_all acts2 (aapply_all acts1 b)))
     by (apply aapply_all_aeq; exact H1).
   rewrite (find_exact_ext _ _ H2). reflexivity.
+Qed.
+
+Lemma declare_finish_new_ext a b f n v pl : aeq a b ->
+  declare_finish_new a f n v pl = declare_finish_new b f n v pl.
+Proof.
+  intro H. unfold declare_finish_new.
+  destruct (dp_tag pl) as [x|]; [|reflexivity].
+  set (acts1 := declare_acts1 f n v pl).
+  assert (H1 : aeq (aapply_all acts1 a) (aapply_all acts1 b)) by (apply aapply_all_aeq; exact H).
+  rewrite (find_exact_ext _ _ H1).
+  destruct (find_exact (aapply_all acts1 b) _ n v f) as [[s' r]|]; [|reflexivity].
+  rewrite (other_occurrences_ext _ _ s' n x f (aapply_aeq (ASetTag s' n x f v) _ _ H1)). reflexivity.
+Qed.
+
+Lemma declare_finish_ext p a b f n v pl : aeq a b -> declare_finish p a f n v pl = declare_finish p b f n v pl.
+Proof.
+  intro H. unfold declare_finish. destruct p; [apply declare_finish_old_ext|apply declare_finish_new_ext]; exact H.
 Qed.
 
 Lemma unassign_acts_ext a b o t n vo : aeq a b -> unassign_acts a o t n vo = unassign_acts b o t n vo.
